@@ -264,3 +264,18 @@ def run(ck):
             ck.ob('C06.key', 'C06.key/%s#%d' % (f.name.split('::')[-1], nkey), ok_k, f.loc(i),
                   'table_ is indexed by chunk_id_to_string(<chunk id parameter>) — the full, fixed-width id')
     ck.floor('C06.key', 'keyed accesses to the provider map', nkey, 3)
+
+    # ---- expiry is compared with the clock as it reads: `now` is steady_clock::now() itself, not rounded to coarser units ------------------------------
+    n_now = 0
+    for f in P.fns:
+        if not f.q.startswith(KT):
+            continue
+        for i in f.walk():
+            nd = f.nodes[i]
+            if nd['k'] == 'VarDecl' and nd.get('n') == 'now' and nd.get('init') is not None and nd['init'] >= 0:
+                n_now += 1
+                ck.touch(f)
+                raw = f.nodes[f.strip(nd['init'])].get('callee') == 'std::chrono::steady_clock::now'
+                ck.ob('C06.find', 'C06.find/exact-clock/%s' % f.name.split('::')[-1], raw, f.loc(i),
+                      '%s measures expiry against steady_clock::now() itself (rounding the reference time up removes providers before their deadline)' % f.name)
+    ck.floor('C06.find', 'reference-time locals in KademliaTable', n_now, 2)
